@@ -191,7 +191,7 @@ Definition set_readonly (l : log) (b : bool) : log := mkLog (l_segs l) (l_hw l) 
 
 (* NewLeaderEpoch / LastOffsetForLeaderEpoch of the commit log *)
 Definition new_leader_epoch (l : log) (e : N) : log :=
-  mkLog (l_segs l) (l_hw l) (cache_assign (l_cache l) e (newest l)) (l_ro l).
+  mkLog (l_segs l) (l_hw l) (cache_assign (l_cache l) e (newest l + 1)) (l_ro l).
 Definition last_offset_for_epoch (l : log) (e : N) : Z :=
   let o := cache_last_offset_for (l_cache l) e in
   if o =? -1 then newest l else o.
